@@ -4,6 +4,7 @@ use crate::gen_sigma::*;
 use crate::sigma::*;
 use crate::util::*;
 use curve25519_dalek::scalar::Scalar;
+use solana_zk_sdk::encryption::pedersen::H;
 
 fn instance(r: &mut Rng, instr: &str) -> Option<Vec<u8>> {
     let a = amount(r);
@@ -18,6 +19,43 @@ fn instance(r: &mut Rng, instr: &str) -> Option<Vec<u8>> {
         "bval3" => bval_st(r, 3, a, 7, None).wit(),
         "cap" => cap_below(r, 2, 5, 9).wit(),
         "cap-at" => cap_at(r, 1_000_000, 400, 3, 7).wit(),
+        // keys that are the generator H or its negative (secret 1 and l-1), as destination / auditor / own key:
+        // the statement is honest, but its points are related to the fixed generators of the scheme
+        "ctct-keyH" | "ctct-keynegH" => {
+            let sk = if instr.ends_with("negH") { -Scalar::ONE } else { Scalar::ONE };
+            let mut st = ctct_st(r, a, a);
+            st.k2 = Kp { s: sk, p: sk.invert() * *H };
+            st.d2 = st.r * st.k2.p;
+            st.wit()
+        }
+        "ctct-ownnegH" => {
+            let sk = -Scalar::ONE;
+            let mut st = ctct_st(r, a, a);
+            st.k1 = Kp { s: sk, p: sk.invert() * *H };
+            let o1 = rand_scalar(r);
+            st.c1 = commit(&Scalar::from(a), &o1); st.d1 = o1 * st.k1.p;
+            st.wit()
+        }
+        "ctcmt-keynegH" | "zero-keynegH" | "pubkey-keynegH" | "pubkey-keyH" => {
+            let sk = if instr.ends_with("negH") { -Scalar::ONE } else { Scalar::ONE };
+            let k = Kp { s: sk, p: sk.invert() * *H };
+            let o1 = rand_scalar(r);
+            if instr.starts_with("ctcmt") {
+                let mut st = ctcmt_st(r, a, a);
+                st.c = commit(&Scalar::from(a), &o1); st.d = o1 * k.p; st.k = k;
+                st.wit()
+            } else if instr.starts_with("zero") {
+                format!("{} {} {} {}", hs(&k.s), hp(&k.p), hp(&(o1 * *H)), hp(&(o1 * k.p)))
+            } else {
+                format!("{} {}", hs(&k.s), hp(&k.p))
+            }
+        }
+        "val2-keynegH" | "val3-keynegH" | "bval2-keynegH" | "bval3-keynegH" => {
+            let n = if instr.contains('3') { 3 } else { 2 };
+            let mut ps: Vec<curve25519_dalek::ristretto::RistrettoPoint> = (0..n).map(|_| kp(r).p).collect();
+            ps[0] = -*H; ps[n - 1] = *H;
+            if instr.starts_with('b') { bval_st(r, n, a, 7, Some(ps)).wit() } else { val_st(r, n, a, Some(ps)).wit() }
+        }
         // at the cap with the zero opening: the percentage commitment is max*G for everyone to see
         "cap-atzero" => cap_at_rp(r, 1_000_000, 400, 3, 7, Scalar::ZERO).wit(),
         // the permitted "no auditor" case: last key (and so the last handle) is the identity
@@ -67,12 +105,61 @@ fn positions(r: &mut Rng, len: usize, all: bool, sparse: bool) -> Vec<usize> {
     v
 }
 
+/// sequences of verifications in one process (see the comments inside): shared by C01, C02, C03 and C07
+pub fn gen_sequences(o: &mut Out, r: &mut Rng, instrs: &[&str], with_range: bool) {
+    // verifications in one process, one after the other: a rejected instruction (undecodable point, non-canonical
+    // scalar, changed statement) in between leaves nothing behind; also across instructions
+    {
+        let mut prev: Option<(String, String)> = None;
+        for instr in instrs.iter().copied() {
+            let Some(b) = instance(r, instr) else { continue };
+            let cl = ctx_len(instr);
+            let h = hex(&b);
+            let tok = |x: &[u8]| format!("{}:{}", instr, hex(x));
+            let mut seq = vec![tok(&b)];
+            for (off, fill) in [(b.len() - 32, 0xffu8), (cl, 0xff), (0, 0xff), (cl, 0x00), (b.len() - 32, 0x00)] {
+                let mut m = b.clone();
+                for x in m[off..off + 32].iter_mut() { *x = fill; }
+                seq.push(tok(&m)); seq.push(tok(&b));
+                // the refused input again, verbatim, twice more (a refusal is not remembered in its favour)
+                seq.push(tok(&m)); seq.push(tok(&m)); seq.push(tok(&b));
+            }
+            if let Some((pi, ph)) = &prev { seq.push(format!("{}:{}", pi, ph)); seq.push(tok(&b)); }
+            o.op(&format!("{}.sequence", instr), &format!("vseq {}", seq.join(" ")));
+            // every 32-byte field in turn made undecodable, the refused input presented twice in a row, honest
+            // verifications before and after (whatever is remembered between calls is remembered per field)
+            let mut seq = vec![tok(&b)];
+            for f in 0..(b.len() / 32) {
+                let mut m = b.clone();
+                for x in m[32 * f..32 * f + 32].iter_mut() { *x = 0xff; }
+                seq.push(tok(&m)); seq.push(tok(&m)); seq.push(tok(&b));
+            }
+            o.op(&format!("{}.sequence-every-field", instr), &format!("vseq {}", seq.join(" ")));
+            prev = Some((instr.to_string(), h));
+        }
+        if let (Some(b), Some((pi, ph))) = ((if with_range { range_instance(r, 64) } else { None }), &prev) {
+            let tok = |x: &[u8]| format!("range64:{}", hex(x));
+            let mut seq = vec![tok(&b)];
+            for off in [264usize, 264 + 64, 264 + 128, 264 + 224, b.len() - 32, 0] {
+                let mut m = b.clone();
+                for x in m[off..off + 32].iter_mut() { *x = 0xff; }
+                seq.push(tok(&m)); seq.push(tok(&b));
+                seq.push(tok(&m)); seq.push(tok(&m)); seq.push(tok(&b));
+            }
+            seq.push(format!("{}:{}", pi, ph)); seq.push(tok(&b));
+            o.op("range64.sequence", &format!("vseq {}", seq.join(" ")));
+        }
+    }
+}
+
 pub fn gen_c07(o: &mut Out, tier: &str, seed: u64) {
     let mut r = Rng::new(seed, "c07");
     let th = tier == "thorough";
     let n_inst = if th { 4 } else { 1 };
     let sig = ["zero", "pubkey", "ctct", "ctcmt", "val2", "val3", "bval2", "bval3", "cap",
-               "val2-noaud", "val3-noaud", "bval2-noaud", "bval3-noaud", "cap-at", "cap-atzero"];
+               "val2-noaud", "val3-noaud", "bval2-noaud", "bval3-noaud", "cap-at", "cap-atzero",
+               "ctct-keyH", "ctct-keynegH", "ctct-ownnegH", "ctcmt-keynegH", "zero-keynegH", "pubkey-keynegH", "pubkey-keyH",
+               "val2-keynegH", "val3-keynegH", "bval2-keynegH", "bval3-keynegH"];
     for variant in sig {
         let instr = variant.split('-').next().unwrap_or(variant);
         let special = variant != instr;
@@ -87,6 +174,8 @@ pub fn gen_c07(o: &mut Out, tier: &str, seed: u64) {
                     m[bit / 8] ^= 1 << (bit % 8);
                     o.op_exp(&format!("{}.bitflip", variant), "R", &format!("verify {} {}", instr, hex(&m)));
                 }
+                // (the pubkey-validity statement for a fixed key is one statement: there is no "other" one)
+                if variant.starts_with("pubkey-key") { continue; }
                 if let Some(b2) = instance(&mut r, variant) {
                     let cl = ctx_len(instr);
                     let mut m = b2[..cl].to_vec();
@@ -113,37 +202,7 @@ pub fn gen_c07(o: &mut Out, tier: &str, seed: u64) {
             }
         }
     }
-    // verifications in one process, one after the other: a rejected instruction (undecodable point, non-canonical
-    // scalar, changed statement) in between leaves nothing behind; also across instructions
-    {
-        let mut prev: Option<(String, String)> = None;
-        for instr in ["zero", "pubkey", "ctct", "ctcmt", "val2", "val3", "bval2", "bval3", "cap"] {
-            let Some(b) = instance(&mut r, instr) else { continue };
-            let cl = ctx_len(instr);
-            let h = hex(&b);
-            let tok = |x: &[u8]| format!("{}:{}", instr, hex(x));
-            let mut seq = vec![tok(&b)];
-            for (off, fill) in [(b.len() - 32, 0xffu8), (cl, 0xff), (0, 0xff), (cl, 0x00), (b.len() - 32, 0x00)] {
-                let mut m = b.clone();
-                for x in m[off..off + 32].iter_mut() { *x = fill; }
-                seq.push(tok(&m)); seq.push(tok(&b));
-            }
-            if let Some((pi, ph)) = &prev { seq.push(format!("{}:{}", pi, ph)); seq.push(tok(&b)); }
-            o.op(&format!("{}.sequence", instr), &format!("vseq {}", seq.join(" ")));
-            prev = Some((instr.to_string(), h));
-        }
-        if let (Some(b), Some((pi, ph))) = (range_instance(&mut r, 64), &prev) {
-            let tok = |x: &[u8]| format!("range64:{}", hex(x));
-            let mut seq = vec![tok(&b)];
-            for off in [264usize, 264 + 64, 264 + 128, 264 + 224, b.len() - 32, 0] {
-                let mut m = b.clone();
-                for x in m[off..off + 32].iter_mut() { *x = 0xff; }
-                seq.push(tok(&m)); seq.push(tok(&b));
-            }
-            seq.push(format!("{}:{}", pi, ph)); seq.push(tok(&b));
-            o.op("range64.sequence", &format!("vseq {}", seq.join(" ")));
-        }
-    }
+    gen_sequences(o, &mut r, &["zero", "pubkey", "ctct", "ctcmt", "val2", "val3", "bval2", "bval3", "cap"], true);
     // canonical decoding of every scalar field: the accepted instance with the group order added to one scalar that is
     // below 2^248 (encoding just above the order, top byte 0x10)
     {
